@@ -17,6 +17,13 @@ func MessageGenerator[T proto.Message](x T, options GeneratorOptions) *rapid.Gen
 	return rapid.Custom(func(t *rapid.T) T {
 		msg := msgType.New()
 
+		md := msg.Descriptor()
+		if md.Fields().Len() == 0 || (md.FullName() == anyFullName && len(options.AnyTypeURLs) == 0) {
+			// nothing will be drawn for this message, and rapid rejects custom
+			// generators that consume no randomness
+			rapid.Bool().Draw(t, "empty-message")
+		}
+
 		options.setFields(t, nil, msg, 0)
 
 		return msg.Interface().(T)
